@@ -201,3 +201,41 @@ Theorem T02x_dict_merge : forall d'' d d0, wfd d0 ->
   dict_update d (dict_update d0 d'') = dict_update (dict_update d d0) d''.
 Proof. exact update_update. Qed.
 Print Assumptions T02x_dict_merge.
+
+(* set({k: v for ...}) -> {k for ...} (the remaining case of remove_redundant_comprehension_casts) *)
+Theorem T02x_comp_casts_set_dict : forall w elt dval t it ifs,
+  simple dval = true ->
+  rw_comp_casts (EBi BSet [EComp CDict elt dval t it ifs]) = Some (EComp CSet elt (EConst ANone) t it ifs) /\
+  forall en tr r, eval w (EBi BSet [EComp CDict elt dval t it ifs]) en tr = Some r ->
+                  eval w (EComp CSet elt (EConst ANone) t it ifs) en tr = Some r.
+Proof. exact comp_casts_set_dict. Qed.
+Print Assumptions T02x_comp_casts_set_dict.
+
+(* congruence: a rule that is right at the root and yields proper expressions is right when applied
+   bottom-up at every node (rw_all), as the walker of the real rule does *)
+Theorem T02x_lift_sound : forall w (rw : expr -> option expr),
+  (forall a a', rw a = Some a' ->
+     wrapper a' = false /\ forall en tr r, eval w a en tr = Some r -> eval w a' en tr = Some r) ->
+  forall e en tr r, eval w e en tr = Some r -> eval w (rw_all (lift rw) e) en tr = Some r.
+Proof. exact lift_sound. Qed.
+Print Assumptions T02x_lift_sound.
+
+Theorem T02x_dup_set_everywhere : forall w e en tr r,
+  eval w e en tr = Some r -> eval w (rw_all (lift rw_dup_set) e) en tr = Some r.
+Proof. exact dup_set_everywhere. Qed.
+Print Assumptions T02x_dup_set_everywhere.
+
+Theorem T02x_dup_dict_everywhere : forall w e en tr r,
+  eval w e en tr = Some r -> eval w (rw_all (lift rw_dup_dict) e) en tr = Some r.
+Proof. exact dup_dict_everywhere. Qed.
+Print Assumptions T02x_dup_dict_everywhere.
+
+Theorem T02x_unpacks_everywhere : forall w e en tr r,
+  eval w e en tr = Some r -> eval w (rw_all (lift rw_unpacks) e) en tr = Some r.
+Proof. exact unpacks_everywhere. Qed.
+Print Assumptions T02x_unpacks_everywhere.
+
+Theorem T02x_dict_unpacks_everywhere : forall w e en tr r,
+  eval w e en tr = Some r -> eval w (rw_all (lift rw_dict_unpacks) e) en tr = Some r.
+Proof. exact dict_unpacks_everywhere. Qed.
+Print Assumptions T02x_dict_unpacks_everywhere.
